@@ -32,7 +32,7 @@ Rich == rich < MaxRich
 ValueAlphabet ==
   (IF Budget THEN {mArrS, mObjS} \cup PoorMarkers \cup (IF Rich THEN ScalarMarkers \cup BadMarkers ELSE {}) ELSE {})
   \cup (IF InPlainArr THEN {mArrE} ELSE {})
-  \cup (IF Budget /\ Rich /\ (s.ctx = <<>> \/ InPlainArr) THEN {mN} ELSE {})
+  \cup (IF Budget /\ Rich /\ NoopAllowed(s) THEN {mN} ELSE {})
 KeyAlphabet ==
   (IF Budget THEN {mi} \cup (IF Rich THEN {mU, mI, ml, mL, mS} ELSE {}) ELSE {})
   \cup (IF InPlainObj THEN {mObjE} ELSE {})
